@@ -130,13 +130,14 @@ def evalargs(src):
 class RefCallable:
     """a def / block / body bound to the level it is written in"""
 
-    def __init__(self, it, name, sig, body, level, inline=False):
+    def __init__(self, it, name, sig, body, level, inline=False, ctx=None, is_body=False):
         self.it, self.name, self.sig, self.body, self.level, self.inline = it, name, sig, body, level, inline
+        self.ctx, self.is_body = ctx, is_body
 
     def __call__(self, *a, **kw):
         it = self.it
         params = bind(self.sig, a, kw)
-        env = Env(self.level, params, it.take_caller(), inline=self.inline)
+        env = Env(self.level, params, it.take_caller(), inline=self.inline, ctx=self.ctx, is_body=self.is_body)
         it.run(self.body, env)
         return ""
 
@@ -210,10 +211,10 @@ class Level:
 
     special_dontcare = False
 
-    def find_def(self, name):
+    def find_def(self, name, ctx=None):
         for d in self.file["defs"]:
             if d["name"] == name:
-                return RefCallable(self.chain.it, name, d["params"] if d["kind"] == "def" else "**pageargs", d["body"], self)
+                return RefCallable(self.chain.it, name, d["params"] if d["kind"] == "def" else "**pageargs", d["body"], self, ctx=ctx)
         for b in toplevel_blocks(self.file["body"]):
             if b[1] == name:
                 return RefCallable(self.chain.it, name, "**pageargs", b[2], self)
@@ -228,7 +229,7 @@ class Level:
             sig = "**pageargs"
         elif sig_names(sig)[1] is None:
             sig = sig + ", **pageargs"
-        return RefCallable(self.chain.it, "body", sig, self.file["body"], self)
+        return RefCallable(self.chain.it, "body", sig, self.file["body"], self, is_body=True)
 
 
 def toplevel_blocks(stmts):
@@ -412,8 +413,14 @@ AMBIGUOUS = object()  # the same name imported from two namespaces: order not fi
 
 
 class Env:
-    def __init__(self, level, params, caller, inline=False):
+    """one running callable.  ctx = the context it sees: the render context of its chain, or (A2(6)) for a
+    top-level def called by its bare name from the body, that context overlaid with the body's <%page>
+    arguments and the current values of the body's <% %> assignments"""
+
+    def __init__(self, level, params, caller, inline=False, ctx=None, is_body=False):
         self.level, self.params, self.caller, self.inline = level, params, caller, inline
+        self.ctx = level.chain.ctx if ctx is None else ctx
+        self.is_body = is_body
 
 
 # --------------------------------------------------------------------------
@@ -470,7 +477,11 @@ class Interp:
             if d["name"] == name:
                 if env.inline:
                     raise DontCare("file-level def called from a def inside <%namespace>")
-                return base.find_def(name)
+                if env.is_body:
+                    overlay = dict(env.ctx)
+                    overlay.update(env.params)  # <%page> arguments and the assignments made so far
+                    return base.find_def(name, ctx=overlay)
+                return base.find_def(name, ctx=env.ctx)
         if name in base.nss:
             return base.nss[name]
         if name in base.imports:
@@ -479,7 +490,7 @@ class Interp:
             if base.imports[name] is AMBIGUOUS:
                 raise DontCare("name imported from two namespaces")
             return base.imports[name]
-        ctx = lv.chain.ctx
+        ctx = env.ctx
         if name in ctx:
             return ctx[name]
         if hasattr(builtins, name):
@@ -572,12 +583,14 @@ class Interp:
         elif k == "include":
             uri = self.uri_value(s[1], None, env)
             a, kw = evalargs(s[2])
-            self.include(uri, env.level.path, env.level.chain.ctx, a, kw)
+            self.include(uri, env.level.path, env.ctx, a, kw)
         elif k == "include_file":
             v = self.lookup(s[1], env)
             if not isinstance(v, View):
                 raise DontCare("include_file on a non-template namespace")
             a, kw = evalargs(s[3])
+            if env.ctx is not env.level.chain.ctx:
+                raise DontCare("include_file() inside a def that runs with the body's locals in its context")
             self.include(s[2], v.path, v.chain.ctx, a, kw)
         elif k == "get_ns":
             v = self.lookup(s[1], env)
@@ -639,13 +652,17 @@ class Interp:
             c = self.lookup("caller", env)
             self.pending_caller = None
             self.w(self.tostr(c.body()))
+        elif k == "assign":
+            if not env.is_body:
+                raise DontCare("assignment outside a template body")
+            env.params[s[1]] = eval(s[2], {"__builtins__": {}})
         elif k == "kwitems":
             v = self.lookup(s[1], env)
             if not isinstance(v, dict):
                 raise DontCare("items() of a non-dict")
             self.w(str(sorted(v.items())))
         elif k == "ctxget":
-            ctx = env.level.chain.ctx
+            ctx = env.ctx
             v = ctx[s[1]] if s[1] in ctx else getattr(builtins, s[1], "-")
             self.w(self.tostr(v))
         else:
